@@ -510,14 +510,54 @@ package transaction
 // is a delete, except for an insert-then-delete: in an optimistic transaction a non-locking existence check, in a pessimistic
 // one (newly inserted) nothing but the conversion of a held lock. The pessimistic flag of the mutation is the transaction's
 // mode for locked keys and false otherwise.
-//@ func (*twoPhaseCommitter) initKeysAndMutations
+//@ ghost field memBufferMutations.pushed int
+//@ func (*memBufferMutations) Push
 //@   prop C04
+//@   may-panic
+//@   modifies-also memBufferMutations.pushed of m
+//@   postulate m.pushed == old(m.pushed) + 1
+
+//@ func (*twoPhaseCommitter) initKeysAndMutations
+//@   prop C04 C06
 //@   bytes: key
 //@   may-panic
 //@   opaque-callee GetMemDB GetMemBuffer newMemBufferMutations Len IsUnnecessaryKeyValue Handle checkAssertionByPessimisticLockResults UpdateFlags txnLockTTL setDetail GetRequestSource IsInternalRequest ToPB StartTS GetKey
 //@   loop 1 invariant l1: it != nil
+// (C06) every entry that carries the "locked" flag becomes a mutation - so that the commit converts or removes its lock -
+// whatever the filter says about its value (ghost: memBufferMutations.pushed counts the pushes). Not covered: a locked key
+// whose buffered value is an empty (delete) entry that the filter calls unnecessary is skipped by the code as it stands.
+//@   loop 1 step locked: art.aFlags(it, prev(it.apos)).HasLocked() && !(art.aHasValue(it, prev(it.apos)) && value == "" && isUnnecessaryKV) && c.mutations == prev(c.mutations) ==> c.mutations.pushed == prev(c.mutations.pushed) + 1
 //@   loop 2 invariant l2: true
 //@   at call(Push) assert op: arg_op == ite(!art.aHasValue(it, it.apos), ite(flags.HasLockedInShareMode(), kvrpcpb.Op_SharedLock, kvrpcpb.Op_Lock),
 //@       ite(value != "", ite(isUnnecessaryKV, ite(flags.HasLockedInShareMode(), kvrpcpb.Op_SharedLock, kvrpcpb.Op_Lock), ite(flags.HasPresumeKeyNotExists(), kvrpcpb.Op_Insert, kvrpcpb.Op_Put)),
 //@           ite(!c.txn.isPessimistic && flags.HasPresumeKeyNotExists(), kvrpcpb.Op_CheckNotExists, ite(flags.HasNewlyInserted(), ite(flags.HasLockedInShareMode(), kvrpcpb.Op_SharedLock, kvrpcpb.Op_Lock), kvrpcpb.Op_Del))))
 //@   at call(Push) assert mode: arg_isPessimisticLock == (flags.HasLocked() && c.isPessimistic)
+
+// A successful prewrite answer decides how the commit may proceed (C03/C04: a commit protocol is used only if the store
+// went along with it): a one-phase attempt the store did not commit (no one-phase commit timestamp) falls back to plain
+// two-phase commit - neither one-phase NOR async commit stays on, since no min-commit-ts was agreed; a one-phase commit
+// timestamp is recorded as it is; an async-commit attempt answered without min-commit-ts falls back too, and an answered
+// min-commit-ts only ever raises the committer's.
+//@ func (*prewrite1BatchReqHandler) handleSingleBatchSucceed
+//@   prop C03 C04
+//@   may-panic
+//@   opaque-callee SetRPCError getDetail MergePrewriteReqDetails GetStoreAddr GetID run GetGlobalConfig tryUpdate get
+//@   ensures fallback1pc: result == nil && old(handler.committer.useOnePC) > 0 && prewriteResp.OnePcCommitTs == 0 ==> handler.committer.useOnePC == 0 && handler.committer.useAsyncCommit == 0
+//@   ensures onepc: result == nil && old(handler.committer.useOnePC) > 0 && prewriteResp.OnePcCommitTs != 0 ==> handler.committer.onePCCommitTS == prewriteResp.OnePcCommitTs
+//@   ensures fallbackasync: result == nil && old(handler.committer.useOnePC) == 0 && old(handler.committer.useAsyncCommit) > 0 && prewriteResp.MinCommitTs == 0 && !handler.committer.testingKnobs.noFallBack ==> handler.committer.useAsyncCommit == 0
+
+// A failed commit always starts its background clean-up (unless the store is already closed): cleanup hands exactly one
+// task to the transaction's spawner - whether or not the prewrite had started (a pessimistic transaction holds locks
+// before it prewrites anything). Ghost: KVTxn.spawned counts the tasks handed to spawn.
+//@ ghost field KVTxn.spawned int
+//@ func (*KVTxn) spawn
+//@   trusted
+//@   modifies-also KVTxn.spawned of txn
+//@   ensures txn.spawned == old(txn.spawned) + 1
+//@ func (kvstore) IsClose
+//@   trusted
+//@   pure
+//@ func (*twoPhaseCommitter) cleanup
+//@   prop C06
+//@   may-panic
+//@   ensures started: !c.store.IsClose() ==> c.txn.spawned == old(c.txn.spawned) + 1
